@@ -135,7 +135,18 @@ def facts_get_model_from_str(tree):
     need("if hasattr(user_class, '_tx_instrumented'):" in res and "user_class._tx_instrumented -= 1" in res
          and "if user_class._tx_instrumented == 0:" in res and "delattr(user_class, '_tx_instrumented')" in res,
          "_restore_user_attr_methods: decrement / remove-at-zero shape changed")
-    return except_restores, prim
+    guard = "if not getattr(self, '_tx_user_attr_methods_replaced', False):\n    return" in res.replace("        ", "    ").replace("            ", "        ") \
+        or "if not getattr(self, '_tx_user_attr_methods_replaced', False):" in res
+    if guard:
+        need("self._tx_user_attr_methods_replaced = False" in res and "self._tx_user_attr_methods_replaced = True" in rep,
+             "guarded restore: flag is not set by _replace_user_attr_methods / cleared by _restore_user_attr_methods")
+        rf = find_func(tree, "_restore_user_attr_methods")
+        body = [s for s in rf.body if not (isinstance(s, ast.Expr) and isinstance(s.value, ast.Constant))]
+        need(isinstance(body[0], ast.If) and _u(body[0].body[0]) == "return" and _u(body[1]) == "self._tx_user_attr_methods_replaced = False",
+             "guarded restore: guard is not the first statement")
+    else:
+        need("_tx_user_attr_methods_replaced" not in res, "_restore_user_attr_methods: unrecognised guard")
+    return except_restores, prim, guard
 
 
 def fact_end_restores(tree):
@@ -154,7 +165,7 @@ def extract():
     ltree, _ = parse_file("textx/lang.py")
     mtree, _ = parse_file("textx/model.py")
     mmtree, _ = parse_file("textx/metamodel.py")
-    ex, prim = facts_get_model_from_str(mtree)
+    ex, prim, guard = facts_get_model_from_str(mtree)
     # the call that ends construction for every included model of a main load
     p2o = find_func(mtree, "parse_tree_to_objgraph")
     need("for m in models:\n    _end_model_construction(m)" in _u(p2o).replace("        ", "").replace("    _end", "    _end")
@@ -167,6 +178,7 @@ def extract():
         "f_except_restores": ex,
         "f_end_restores": fact_end_restores(mtree),
         "f_restore_on_primitive": prim,
+        "f_restore_guarded": guard,
     }
 
 
